@@ -109,6 +109,8 @@ def self_check(ctx, rate, accel, time, accum):
 
 
 def run(ctx):
+    from .. import wtests
+    wtests.run(ctx)
     mon = install(ctx)
     rng = ctx.rng
     n = ctx.budget(120_000, 1_200_000)
@@ -131,6 +133,9 @@ def run(ctx):
         if accum == "clear" and via in ("move_dist_lt", "moveDistLMA") and rng.random() < 0.3:
             accum = G.fresh_clear(rng)
             classes.append("'clear' passed as a string built at run time")
+        if rng.random() < 0.004:
+            from .. import noise
+            noise.burst(ctx, rng, exclude=('stepper', 'legacy-stepper'))
         if rng.random() < 0.01:
             from plotink import ebb_calc as _ec
             G.failed_call(rng, _ec.move_dist_lt, 4)
@@ -209,6 +214,7 @@ def import_time_phase(ctx, n_per_setting):
                      (rate, accel, time, accum, "import", setting, ambient.kind, ambient.value))
             one_case(ctx, mon, rate, accel, time, accum, ambient, via)
             done += 1
+    ctx.need("history: after calls to other library functions", 150)
     contracts.uninstall_all()
     G.reload_ebb_calc(None)
 
